@@ -61,6 +61,35 @@ theorem cipherOf_ok (c : Conn) (sub : Nat) : CipherOk (cipherOf c sub) := by
     · simp only [rc4At_eq_xorAt]; exact h.dec_enc p x
     · simp only [rc4At_eq_xorAt]; exact h.enc_ne p x hx
 
+/-- what the theorems assume of the connection's compression (none, or zlib): decompressing a compressed fragment returns
+    it, and a non-empty fragment never compresses to the empty string. Both hold for the identity; for zlib they are
+    assumptions on `zlib.compress` (which the model does not reproduce byte for byte) that the correspondence run validates
+    on every fragment it sees, with the Lean inflater. -/
+structure EnvLaws (env : Env) : Prop where
+  round : ∀ b, env.decompress (env.compress b) = .ok b
+  nonempty : ∀ b, b ≠ [] → env.compress b ≠ []
+  notclosed : ∀ b, env.decompress b ≠ .error .closed     -- what `decompress` raises is not the closed-resource error
+
+theorem wrap_ok (env : Env) (hl : EnvLaws env) (ci : Cipher) (h : CipherOk ci) : CipherOk (wrap env ci) := by
+  refine ⟨fun p x => ?_, fun p x hx => ?_⟩
+  · simp only [wrap, h.dec_enc, hl.round]
+  · exact h.enc_ne p _ (hl.nonempty x hx)
+
+theorem envLaws_of_id (env : Env) (hcomp : ∀ b, env.compress b = b) (hdec : ∀ b, env.decompress b = .ok b) : EnvLaws env :=
+  ⟨fun b => by rw [hcomp, hdec], fun b hb => by rw [hcomp]; exact hb, fun b => by rw [hdec]; exact fun h => by cases h⟩
+
+/-- the call raised nothing, or only the closed-resource error (`process_reliable` on packets behind a released DISCONNECT) -/
+def R.closedOnly (r : R) : Bool :=
+  match r.err with
+  | none => true
+  | some e => e == .closed
+
+theorem R.closedOnly_iff (r : R) : r.closedOnly = true ↔ ∀ e, r.err = some e → e = .closed := by
+  unfold R.closedOnly
+  cases r.err with
+  | none => simp
+  | some e => simp
+
 /-! ## the system -/
 
 structure Sys where
@@ -160,7 +189,9 @@ def Sys.run (env : Env) (sub : Nat) (s : Sys) (ops : List SysOp) : Sys := ops.fo
 /-- the hypotheses on a step: a `send` is either refused at once or runs to its end on a live link (an exception from the
     transport in the middle of a message is excluded: it leaves a hole in the id sequence — the connection is dead for
     the application that saw the exception), and likewise each single fragment and each ping; pings are followed on substream 0,
-    whose id counter they share (on other substreams they do not appear); a delivered copy is within half the id space of the receiver's release point -/
+    whose id counter they share (on other substreams they do not appear); a delivered copy is within half the id space of the receiver's release point,
+    and the only exception `process_reliable` may raise on it is the closed-resource one (with compression on, `decompress`
+    can raise; with compression off this conjunct holds by itself: `deliver_ok_without_compression`) -/
 def Sys.opOk (env : Env) (sub : Nat) (s : Sys) : SysOp → Bool
   | .send now data =>
     !s.pend.isEmpty || sendRefused s.a sub || ((s.a.send env now data sub).err.isNone && (s.a.send env now data sub).c.linkUp)
@@ -173,8 +204,14 @@ def Sys.opOk (env : Env) (sub : Nat) (s : Sys) : SysOp → Bool
   | .disconnect now =>
     decide (s.a.state ≠ STATE_CONNECTED) ||
       (decide (sub = 0) && (s.a.disconnect env now).err.isNone && (s.a.disconnect env now).c.linkUp)
-  | .deliver j => decide (j < s.nrel + 32768 ∧ s.nrel < j + 32768) || decide (s.net.length ≤ j)
-  | .deliverH _ j => decide (j < s.nrel + 32768 ∧ s.nrel < j + 32768) || decide (s.net.length ≤ j)
+  | .deliver j => (decide (j < s.nrel + 32768 ∧ s.nrel < j + 32768) || decide (s.net.length ≤ j)) &&
+      (match s.net[j]? with
+       | none => true
+       | some p => s.b.eof || (s.b.processReliable env p).closedOnly)
+  | .deliverH now j => (decide (j < s.nrel + 32768 ∧ s.nrel < j + 32768) || decide (s.net.length ≤ j)) &&
+      (match s.net[j]? with
+       | none => true
+       | some p => !(s.b.accepts env now p) || (s.b.processReliable env p).closedOnly)
   | .inject _ p => decide (p.signature ≠ s.b.expectedSig env p)
   | .ackIn _ p => (hasAck p.flags || hasMultiAck p.flags) && decide (p.type ≠ TYPE_SYN) && decide (p.type ≠ TYPE_CONNECT)
   | .fireResend _ p _ => decide (p ∈ resendsOf s.a)
@@ -368,7 +405,7 @@ theorem send_refused (env : Env) (now : Time) (c : Conn) (data : Bytes) (sub : N
       · exact absurd h h1
       · exact absurd h h2
 
-theorem sendFrags_cipher (env : Env) (hcomp : ∀ b, env.compress b = b) (now : Time) (sub : Nat) :
+theorem sendFrags_cipher (env : Env) (now : Time) (sub : Nat) :
     ∀ (fs : List Frag) (c : Conn) (n pos : Nat), SRel c sub n pos →
       cipherOf (Conn.sendFrags env now sub fs c).c sub = cipherOf c sub := by
   intro fs
@@ -376,7 +413,7 @@ theorem sendFrags_cipher (env : Env) (hcomp : ∀ b, env.compress b = b) (now : 
   | nil => intro c n pos _; rfl
   | cons f fs ih =>
     intro c n pos hs
-    obtain ⟨q, c2, heq, _, hs2, hc2, _⟩ := sendPacket_fragment_eq env hcomp now sub c f n pos hs
+    obtain ⟨q, c2, heq, _, hs2, hc2, _⟩ := sendPacket_fragment_eq env now sub c f n pos hs
     rw [sendFrags_cons, heq]
     have hst := srel_transmit env now c2 q sub _ _ hs2
     cases he : (c2.transmit env now q).err with
@@ -387,14 +424,14 @@ theorem sendFrags_cipher (env : Env) (hcomp : ∀ b, env.compress b = b) (now : 
     | none =>
       rw [(bind_ok _ _ he).2, ih _ _ _ hst.1, hst.2, hc2]
 
-theorem send_cipher (env : Env) (hcomp : ∀ b, env.compress b = b) (now : Time) (c : Conn) (data : Bytes) (sub n pos : Nat)
+theorem send_cipher (env : Env) (now : Time) (c : Conn) (data : Bytes) (sub n pos : Nat)
     (hs : SRel c sub n pos) : cipherOf (c.send env now data sub).c sub = cipherOf c sub := by
   unfold Conn.send
   split
   · rfl
   · split
     · rfl
-    · exact sendFrags_cipher env hcomp now sub _ c n pos hs
+    · exact sendFrags_cipher env now sub _ c n pos hs
 
 /-! ### the connection state along the send path: unchanged, or DISCONNECTED (a dead link found by `transport.send`) -/
 
@@ -660,18 +697,19 @@ theorem getElem?_map_some {α β : Type} (f : α → β) (l : List α) (j : Nat)
   rw [List.getElem?_map, h]; rfl
 
 /-- a copy of `net[j]` reaching `process_reliable` of the open receiver is the L2 arrival of `log[j]` -/
-theorem cpl_arrive (env : Env) (hdec : ∀ b, env.decompress b = .ok b) (sub : Nat) (ci : Cipher) (size : Nat) (s : Sys) (ch : Chan)
-    (j : Nat) (p : Packet) (h : Cpl sub ci size s ch) (hj : s.net[j]? = some p) (heof : s.b.eof = false) :
+theorem cpl_arrive (env : Env) (hnc : ∀ b, env.decompress b ≠ .error .closed) (sub : Nat) (ci : Cipher) (size : Nat) (s : Sys) (ch : Chan)
+    (j : Nat) (p : Packet) (h : Cpl sub ci size s ch) (hj : s.net[j]? = some p) (heof : s.b.eof = false)
+    (herr : ∀ e, (s.b.processReliable env p).err = some e → e = .closed) :
     ∃ w, s.b.windows[p.substreamId]? = some w ∧ ch.s.log[j]? = some (wireOf p) ∧
       Cpl sub ci size { s with b := (s.b.processReliable env p).c, nrel := s.nrel + (w.update p.packetId p).2.length }
-        { ch with r := ch.r.arrive ci (wireOf p) } := by
+        { ch with r := ch.r.arrive (wrap env ci) (wireOf p) } := by
   have hlog : ch.s.log[j]? = some (wireOf p) := by rw [← h.log]; exact getElem?_map_some _ _ _ _ hj
   have hp := h.netgood p (List.mem_of_getElem? hj)
   obtain ⟨w, hw, hgw, hwm⟩ := h.bwin
   refine ⟨w, by rw [hp.1]; exact hw, hlog, ?_⟩
   have hwl : sub < s.b.windows.length := (List.getElem?_eq_some_iff.mp hw).1
   obtain ⟨w', hw', hgw', harr, hrr, hwf', hci'⟩ :=
-    processReliable_refines env hdec sub s.b w ch.r.core ch.r.nrel p h.bwf hwl hw hgw hp h.rrel heof
+    processReliable_refines env sub s.b w ch.r.core ch.r.nrel p h.bwf hwl hw hgw hp h.rrel heof hnc herr
   have hr : ch.r = ⟨w.map wireOf, ch.r.nrel, ch.r.core⟩ := by rw [hwm]
   rw [h.bcipher] at harr hrr hci'
   rw [← hr] at harr hrr
@@ -679,14 +717,14 @@ theorem cpl_arrive (env : Env) (hdec : ∀ b, env.decompress b = .ok b) (sub : N
   refine ⟨h.size, h.srel, h.acipher, h.log, h.netgood, h.netord, by rw [hfr.1]; exact h.blink, hfr.2, h.sent, h.opn, h.cln, h.pend, hwf',
     ⟨w', hw', hgw', ?_⟩, hrr, hci', ?_⟩
   · rw [harr]
-  · show s.nrel + _ = (Receiver.arrive ci ch.r (wireOf p)).nrel
+  · show s.nrel + _ = (Receiver.arrive (wrap env ci) ch.r (wireOf p)).nrel
     rw [harr, h.nrel]
 
 /-- **one step of the system is one step (or none) of the L2 channel, and the coupling is kept** -/
-theorem cpl_step (env : Env) (hcomp : ∀ b, env.compress b = b) (hdec : ∀ b, env.decompress b = .ok b)
+theorem cpl_step (env : Env) (hnc : ∀ b, env.decompress b ≠ .error .closed)
     (sub : Nat) (ci : Cipher) (size : Nat) (s : Sys) (ch : Chan) (op : SysOp)
     (h : Cpl sub ci size s ch) (hok : s.opOk env sub op = true) :
-    Cpl sub ci size (s.step env sub op) (stepOpt ci size ch (s.absOp env sub op)) ∧
+    Cpl sub ci size (s.step env sub op) (stepOpt (wrap env ci) size ch (s.absOp env sub op)) ∧
     (∀ o, s.absOp env sub op = some o → Chan.opOk ch o = true) := by
   cases op with
   | send now data =>
@@ -711,7 +749,7 @@ theorem cpl_step (env : Env) (hcomp : ∀ b, env.compress b = b) (hdec : ∀ b, 
       refine ⟨?_, fun o ho => by cases ho; rfl⟩
       simp only [Sys.opOk, hbusy', href', Bool.false_or, Bool.and_eq_true] at hok
       have hfine := hok
-      have hr := (send_refines env hcomp now s.a data sub ch.s.nextId ch.s.encPos h.srel).2
+      have hr := (send_refines env now s.a data sub ch.s.nextId ch.s.encPos h.srel).2
         (by simpa using hfine.1) hfine.2
       have hfr := send_frame env now s.a data sub
       rw [h.acipher, h.size] at hr
@@ -720,10 +758,10 @@ theorem cpl_step (env : Env) (hcomp : ∀ b, env.compress b = b) (hdec : ∀ b, 
         simp only [Bool.or_eq_false_iff, decide_eq_false_iff_not, ne_eq] at href'
         exact Classical.not_not.mp href'.1
       have hcl0 : ch.s.closing = false := h.opn hstc
-      have hsend : ch.s.send ci size data =
-          { ch.s with nextId := iterSeq (wiresOf ci ch.s.nextId ch.s.encPos (split size data)).length ch.s.nextId,
-                      encPos := ch.s.encPos + wiresLen (wiresOf ci ch.s.nextId ch.s.encPos (split size data)),
-                      log := ch.s.log ++ wiresOf ci ch.s.nextId ch.s.encPos (split size data),
+      have hsend : ch.s.send (wrap env ci) size data =
+          { ch.s with nextId := iterSeq (wiresOf (wrap env ci) ch.s.nextId ch.s.encPos (split size data)).length ch.s.nextId,
+                      encPos := ch.s.encPos + wiresLen (wiresOf (wrap env ci) ch.s.nextId ch.s.encPos (split size data)),
+                      log := ch.s.log ++ wiresOf (wrap env ci) ch.s.nextId ch.s.encPos (split size data),
                       sent := if data.isEmpty then ch.s.sent else ch.s.sent ++ [data] } := by
         simp [Sender.send, hcl0, hpend0]
       simp only [stepOpt, Chan.step, Sys.step, hbusy', Bool.false_eq_true, if_false]
@@ -734,7 +772,7 @@ theorem cpl_step (env : Env) (hcomp : ∀ b, env.compress b = b) (hdec : ∀ b, 
       · rw [hfr.1]; exact h.size
       · simp only [wiresOf_length]; exact hr.2
       · -- the cipher (key, on/off) of the substream is what it was
-        exact (send_cipher env hcomp now s.a data sub _ _ h.srel).trans h.acipher
+        exact (send_cipher env now s.a data sub _ _ h.srel).trans h.acipher
       · simp only [List.map_append, h.log, hr.1]
       · intro p hp
         rcases List.mem_append.mp hp with hp | hp
@@ -779,13 +817,13 @@ theorem cpl_step (env : Env) (hcomp : ∀ b, env.compress b = b) (hdec : ∀ b, 
     cases hp : s.pend with
     | nil =>
       have hpend0 : ch.s.pending = [] := by rw [h.pend, hp]
-      have : ch.s.frag ci = ch.s := by simp [Sender.frag, hpend0]
+      have : ch.s.frag (wrap env ci) = ch.s := by simp [Sender.frag, hpend0]
       simp only [Sys.step, hp, this]
       exact h
     | cons f fs =>
       have hpendc : ch.s.pending = f :: fs := by rw [h.pend, hp]
       simp only [Sys.opOk, hp, Bool.and_eq_true] at hok
-      obtain ⟨q, c2, heq, hwire, hs2, hc2, hl2⟩ := sendPacket_fragment_eq env hcomp now sub s.a f ch.s.nextId ch.s.encPos h.srel
+      obtain ⟨q, c2, heq, hwire, hs2, hc2, hl2⟩ := sendPacket_fragment_eq env now sub s.a f ch.s.nextId ch.s.encPos h.srel
       have hfr := sendPacket_frame env now s.a (dataPacket sub f)
       have ht := transmit_emit env now c2 q
       rw [h.acipher] at hwire hs2 hc2
@@ -803,10 +841,10 @@ theorem cpl_step (env : Env) (hcomp : ∀ b, env.compress b = b) (hdec : ∀ b, 
               rw [heq, ht.2.2.2.2]; exact h2
             rw [this] at hok; simp at hok
         · exact h1.1
-      have hfrag : ch.s.frag ci =
+      have hfrag : ch.s.frag (wrap env ci) =
           { ch.s with nextId := seqNext ch.s.nextId,
-                      encPos := ch.s.encPos + (if f.data.isEmpty then f.data else ci.enc ch.s.encPos f.data).length,
-                      log := ch.s.log ++ [⟨ch.s.nextId, .data f.fragId, if f.data.isEmpty then f.data else ci.enc ch.s.encPos f.data⟩],
+                      encPos := ch.s.encPos + (if f.data.isEmpty then f.data else (wrap env ci).enc ch.s.encPos f.data).length,
+                      log := ch.s.log ++ [⟨ch.s.nextId, .data f.fragId, if f.data.isEmpty then f.data else (wrap env ci).enc ch.s.encPos f.data⟩],
                       pending := fs } := by
         simp [Sender.frag, hpendc]
       simp only [Sys.step, hp]
@@ -944,14 +982,17 @@ theorem cpl_step (env : Env) (hcomp : ∀ b, env.compress b = b) (hdec : ∀ b, 
           simp only [Sys.step, hj, hlog, heof, if_true, Receiver.arrive, hcl]
           exact h
         | false =>
-          obtain ⟨w, hw, hlog, hc⟩ := cpl_arrive env hdec sub ci size s ch j p h hj heof
+          have herr : ∀ e, (s.b.processReliable env p).err = some e → e = .closed := by
+            simp only [Sys.opOk, hj, heof, Bool.false_or, Bool.and_eq_true] at hok
+            exact (R.closedOnly_iff _).mp hok.2
+          obtain ⟨w, hw, hlog, hc⟩ := cpl_arrive env hnc sub ci size s ch j p h hj heof herr
           simp only [Sys.step, hj, hlog, heof, Bool.false_eq_true, if_false, hw]
           exact hc
     · cases ho
-      simp only [Sys.opOk] at hok
+      simp only [Sys.opOk, Bool.and_eq_true] at hok
       simp only [Chan.opOk]
       rw [← h.nrel, ← h.log, List.length_map]
-      exact hok
+      exact hok.1
 
   | deliverH now j =>
     simp only [Sys.absOp]
@@ -975,14 +1016,17 @@ theorem cpl_step (env : Env) (hcomp : ∀ b, env.compress b = b) (hdec : ∀ b, 
             have hst := h.beof he
             unfold Conn.accepts at hacc
             simp [hst] at hacc
-        obtain ⟨w, hw, hlog, hc⟩ := cpl_arrive env hdec sub ci size s ch j p h hj heof
+        have herr : ∀ e, (s.b.processReliable env p).err = some e → e = .closed := by
+          simp only [Sys.opOk, hj, hacc, Bool.not_true, Bool.false_or, Bool.and_eq_true] at hok
+          exact (R.closedOnly_iff _).mp hok.2
+        obtain ⟨w, hw, hlog, hc⟩ := cpl_arrive env hnc sub ci size s ch j p h hj heof herr
         simp only [hlog, hw, if_true]
         refine ⟨hc, fun o ho => ?_⟩
         cases ho
-        simp only [Sys.opOk] at hok
+        simp only [Sys.opOk, Bool.and_eq_true] at hok
         simp only [Chan.opOk]
         rw [← h.nrel, ← h.log, List.length_map]
-        exact hok
+        exact hok.1
   | inject now p =>
     simp only [Sys.absOp, stepOpt, Sys.step]
     simp only [Sys.opOk, decide_eq_true_eq] at hok
@@ -1148,14 +1192,15 @@ theorem resend_is_redelivery (env : Env) (sub : Nat) (s : Sys) (now : Time) (p :
 /-! ## whole runs -/
 
 /-- coupling plus the two invariants of the L2 channel -/
-structure Good (sub : Nat) (ci : Cipher) (size start : Nat) (s : Sys) (ch : Chan) : Prop where
+structure Good (env : Env) (sub : Nat) (ci : Cipher) (size start : Nat) (s : Sys) (ch : Chan) : Prop where
   cpl : Cpl sub ci size s ch
-  snd : SndInv ci start ch.s
-  rcv : RcvInv ci start ch
+  snd : SndInv (wrap env ci) start ch.s
+  rcv : RcvInv (wrap env ci) start ch
   tim : TimersOk sub s
 
-theorem good_cipher {sub : Nat} {ci : Cipher} {size start : Nat} {s : Sys} {ch : Chan} (h : Good sub ci size start s ch) :
-    CipherOk ci := by rw [← h.cpl.acipher]; exact cipherOf_ok _ _
+theorem good_cipher {env : Env} (hl : EnvLaws env) {sub : Nat} {ci : Cipher} {size start : Nat} {s : Sys} {ch : Chan}
+    (h : Good env sub ci size start s ch) : CipherOk (wrap env ci) := by
+  rw [← h.cpl.acipher]; exact wrap_ok env hl _ (cipherOf_ok _ _)
 
 theorem run_append (ci : Cipher) (size : Nat) (ch : Chan) (l1 l2 : List Op) :
     Chan.run ci size ch (l1 ++ l2) = Chan.run ci size (Chan.run ci size ch l1) l2 := by
@@ -1175,49 +1220,101 @@ theorem run_toList (ci : Cipher) (size : Nat) (ch : Chan) (o : Option Op) :
     Chan.run ci size ch o.toList = stepOpt ci size ch o := by
   cases o <;> rfl
 
-theorem good_step (env : Env) (hcomp : ∀ b, env.compress b = b) (hdec : ∀ b, env.decompress b = .ok b)
+theorem good_step (env : Env) (hl : EnvLaws env)
     (sub : Nat) (ci : Cipher) (size : Nat) (hsz : 1 ≤ size) (start : Nat) (s : Sys) (ch : Chan) (op : SysOp)
-    (h : Good sub ci size start s ch) (hok : s.opOk env sub op = true) :
-    Good sub ci size start (s.step env sub op) (stepOpt ci size ch (s.absOp env sub op)) ∧
-    Chan.runOk ci size ch (s.absOp env sub op).toList = true := by
-  obtain ⟨hc, hop⟩ := cpl_step env hcomp hdec sub ci size s ch op h.cpl hok
-  have hrun : Chan.runOk ci size ch (s.absOp env sub op).toList = true := by
+    (h : Good env sub ci size start s ch) (hok : s.opOk env sub op = true) :
+    Good env sub ci size start (s.step env sub op) (stepOpt (wrap env ci) size ch (s.absOp env sub op)) ∧
+    Chan.runOk (wrap env ci) size ch (s.absOp env sub op).toList = true := by
+  obtain ⟨hc, hop⟩ := cpl_step env hl.notclosed sub ci size s ch op h.cpl hok
+  have hrun : Chan.runOk (wrap env ci) size ch (s.absOp env sub op).toList = true := by
     cases ho : s.absOp env sub op with
     | none => rfl
     | some o => simp [Chan.runOk, hop o ho]
-  have hinv := inv_run ci (good_cipher h) size hsz start (s.absOp env sub op).toList ch h.snd h.rcv hrun
+  have hinv := inv_run (wrap env ci) (good_cipher hl h) size hsz start (s.absOp env sub op).toList ch h.snd h.rcv hrun
   rw [run_toList] at hinv
   exact ⟨⟨hc, hinv.1, hinv.2, timers_step env sub s op h.tim hok⟩, hrun⟩
 
 /-- **every run of the two-endpoint system is a run of the L2 channel** that satisfies the channel's half-window
     hypothesis, and the coupling holds at its end -/
-theorem sys_refines (env : Env) (hcomp : ∀ b, env.compress b = b) (hdec : ∀ b, env.decompress b = .ok b)
+theorem sys_refines (env : Env) (hl : EnvLaws env)
     (sub : Nat) (ci : Cipher) (size : Nat) (hsz : 1 ≤ size) (start : Nat) :
-    ∀ (ops : List SysOp) (s : Sys) (ch : Chan), Good sub ci size start s ch → Sys.runOk env sub s ops = true →
-      Good sub ci size start (Sys.run env sub s ops) (Chan.run ci size ch (Sys.absOps env sub s ops)) ∧
-      Chan.runOk ci size ch (Sys.absOps env sub s ops) = true := by
+    ∀ (ops : List SysOp) (s : Sys) (ch : Chan), Good env sub ci size start s ch → Sys.runOk env sub s ops = true →
+      Good env sub ci size start (Sys.run env sub s ops) (Chan.run (wrap env ci) size ch (Sys.absOps env sub s ops)) ∧
+      Chan.runOk (wrap env ci) size ch (Sys.absOps env sub s ops) = true := by
   intro ops
   induction ops with
   | nil => intro s ch h _; exact ⟨h, rfl⟩
   | cons op ops ih =>
     intro s ch h hok
     simp only [Sys.runOk, Bool.and_eq_true] at hok
-    obtain ⟨hg, hr1⟩ := good_step env hcomp hdec sub ci size hsz start s ch op h hok.1
+    obtain ⟨hg, hr1⟩ := good_step env hl sub ci size hsz start s ch op h hok.1
     obtain ⟨hg2, hr2⟩ := ih _ _ hg hok.2
     simp only [Sys.run, List.foldl_cons, Sys.absOps]
     rw [run_append, runOk_append, run_toList, hr1, Bool.true_and]
     exact ⟨hg2, hr2⟩
 
+/-- the step hypotheses without the "raises at most the closed-resource error" conjunct of a delivery -/
+def Sys.opOk0 (env : Env) (sub : Nat) (s : Sys) : SysOp → Bool
+  | .deliver j => decide (j < s.nrel + 32768 ∧ s.nrel < j + 32768) || decide (s.net.length ≤ j)
+  | .deliverH _ j => decide (j < s.nrel + 32768 ∧ s.nrel < j + 32768) || decide (s.net.length ≤ j)
+  | op => s.opOk env sub op
+
+def Sys.runOk0 (env : Env) (sub : Nat) : Sys → List SysOp → Bool
+  | _, [] => true
+  | s, op :: ops => s.opOk0 env sub op && Sys.runOk0 env sub (s.step env sub op) ops
+
+/-- **with compression off that conjunct holds by itself** (more generally: whenever `decompress` cannot fail): in a coupled
+    state, `process_reliable` on a packet of the log raises at most the closed-resource error -/
+theorem deliver_ok_without_compression (env : Env) (hdec : ∀ b, ∃ x, env.decompress b = .ok x) {sub : Nat} {ci : Cipher}
+    {size : Nat} {s : Sys} {ch : Chan} (h : Cpl sub ci size s ch) (j : Nat) (p : Packet) (hj : s.net[j]? = some p) :
+    (s.b.processReliable env p).closedOnly = true := by
+  obtain ⟨w, hw, hgw, _⟩ := h.bwin
+  exact (R.closedOnly_iff _).mpr
+    (processReliable_closedOnly_of_id env hdec sub s.b w p h.bwf hw hgw (h.netgood p (List.mem_of_getElem? hj)))
+
+theorem opOk_of_opOk0 (env : Env) (hdec : ∀ b, ∃ x, env.decompress b = .ok x) {sub : Nat} {ci : Cipher}
+    {size : Nat} {s : Sys} {ch : Chan} (h : Cpl sub ci size s ch) (op : SysOp) (hok : s.opOk0 env sub op = true) :
+    s.opOk env sub op = true := by
+  cases op with
+  | deliver j =>
+    simp only [Sys.opOk0] at hok
+    simp only [Sys.opOk, hok, Bool.true_and]
+    cases hj : s.net[j]? with
+    | none => rfl
+    | some p => simp only [deliver_ok_without_compression env hdec h j p hj, Bool.or_true]
+  | deliverH now j =>
+    simp only [Sys.opOk0] at hok
+    simp only [Sys.opOk, hok, Bool.true_and]
+    cases hj : s.net[j]? with
+    | none => rfl
+    | some p => simp only [deliver_ok_without_compression env hdec h j p hj, Bool.or_true]
+  | _ => exact hok
+
+theorem runOk_of_runOk0 (env : Env) (hl : EnvLaws env) (hdec : ∀ b, ∃ x, env.decompress b = .ok x)
+    (sub : Nat) (ci : Cipher) (size : Nat) (hsz : 1 ≤ size) (start : Nat) :
+    ∀ (ops : List SysOp) (s : Sys) (ch : Chan), Good env sub ci size start s ch → Sys.runOk0 env sub s ops = true →
+      Sys.runOk env sub s ops = true := by
+  intro ops
+  induction ops with
+  | nil => intro s ch _ _; rfl
+  | cons op ops ih =>
+    intro s ch h hok
+    simp only [Sys.runOk0, Bool.and_eq_true] at hok
+    have h1 := opOk_of_opOk0 env hdec h.cpl op hok.1
+    obtain ⟨hg, _⟩ := good_step env hl sub ci size hsz start s ch op h h1
+    simp only [Sys.runOk, h1, Bool.true_and]
+    exact ih _ _ hg hok.2
+
 theorem out_prefix_of_inv (ci : Cipher) (start : Nat) (ch : Chan) (hS : SndInv ci start ch.s) (hR : RcvInv ci start ch) :
     ch.r.core.reasm.out <+: ch.s.sent := delivered_prefix_sent ci start ch hS hR
 
 /-- what the receiving application can read, in a coupled state -/
-theorem good_safe {sub : Nat} {ci : Cipher} {size start : Nat} {s : Sys} {ch : Chan} (h : Good sub ci size start s ch) :
+theorem good_safe {env : Env} {sub : Nat} {ci : Cipher} {size start : Nat} {s : Sys} {ch : Chan} (h : Good env sub ci size start s ch) :
     (s.b.queues[sub]?.getD []) <+: s.accepted := by
   rw [← h.cpl.rrel.out, h.cpl.sent]
-  exact out_prefix_of_inv ci start ch h.snd h.rcv
+  exact out_prefix_of_inv (wrap env ci) start ch h.snd h.rcv
 
-theorem good_complete {sub : Nat} {ci : Cipher} {size start : Nat} {s : Sys} {ch : Chan} (h : Good sub ci size start s ch)
+theorem good_complete {env : Env} {sub : Nat} {ci : Cipher} {size start : Nat} {s : Sys} {ch : Chan} (h : Good env sub ci size start s ch)
     (hall : s.nrel = s.net.length) (hidle : s.pend = []) (hopen : s.a.state = STATE_CONNECTED ∨ s.clean = true) :
     (s.b.queues[sub]?.getD []) = s.accepted ∧ (s.b.eof = false → (s.b.fragBufs[sub]?.getD []) = []) := by
   have hn : ch.r.nrel = ch.s.log.length := by rw [← h.cpl.nrel, hall, ← h.cpl.log, List.length_map]
@@ -1234,11 +1331,11 @@ theorem good_complete {sub : Nat} {ci : Cipher} {size start : Nat} {s : Sys} {ch
 /-- **graceful close, end to end**: if the receiving endpoint has reached end-of-stream (in this system that can only happen
     through the sender's DISCONNECT being released) and `disconnect()` was called while no `send` was between its fragments,
     everything the sending application passed to `send` had been delivered before -/
-theorem good_closed {sub : Nat} {ci : Cipher} {size start : Nat} {s : Sys} {ch : Chan} (h : Good sub ci size start s ch)
+theorem good_closed {env : Env} {sub : Nat} {ci : Cipher} {size start : Nat} {s : Sys} {ch : Chan} (h : Good env sub ci size start s ch)
     (heof : s.b.eof = true) (hclean : s.clean = true) :
     (s.b.queues[sub]?.getD []) = s.accepted := by
   have hcl : ch.r.core.closed = true := by rw [h.cpl.rrel.closed]; exact heof
-  have := closed_after_everything ci start ch h.snd h.rcv hcl (h.cpl.cln.trans hclean)
+  have := closed_after_everything (wrap env ci) start ch h.snd h.rcv hcl (h.cpl.cln.trans hclean)
   rw [← h.cpl.rrel.out, h.cpl.sent, this.2.1]
 
 end Nx.L1
@@ -1261,10 +1358,10 @@ theorem fresh_good (env : Env) (sub : Nat) (hsub : sub ≤ env.s.maxSubstreamId)
     (rsb : Option Nat) :
     let a := { Conn.new env va ua ca sa la lpa lta ra rpa rta with state := st }
     let b := { Conn.new env vb ub cb sb lb lpb ltb rb rpb rtb with state := stb, remoteSessionId := rsb }
-    Good sub (cipherOf a sub) env.s.fragmentSize 1 (Sys.fresh a b) (Chan.init 1) := by
+    Good env sub (cipherOf a sub) env.s.fragmentSize 1 (Sys.fresh a b) (Chan.init 1) := by
   intro a b
   have hn : sub < env.s.maxSubstreamId + 1 := by omega
-  have hi := inv_init (cipherOf a sub) 1 (by omega)
+  have hi := inv_init (wrap env (cipherOf a sub)) 1 (by omega)
   have hq : ((List.replicate (env.s.maxSubstreamId + 1) ([] : List Bytes))[sub]?).getD [] = [] := by
     rw [replicate_get _ _ _ hn]; rfl
   have hf : ((List.replicate (env.s.maxSubstreamId + 1) ([] : Bytes))[sub]?).getD [] = [] := by
@@ -1308,10 +1405,10 @@ theorem fresh_good_login (env : Env) (sub : Nat) (hsub : sub ≤ env.s.maxSubstr
     (rsb : Option Nat) :
     let a := { (Conn.new env va ua cka sa la lpa lta ra rpa rta).login pa ca key with state := st }
     let b := { (Conn.new env vb ub ckb sb lb lpb ltb rb rpb rtb).login pb cb key with state := stb, remoteSessionId := rsb }
-    Good sub (cipherOf a sub) env.s.fragmentSize 1 (Sys.fresh a b) (Chan.init 1) := by
+    Good env sub (cipherOf a sub) env.s.fragmentSize 1 (Sys.fresh a b) (Chan.init 1) := by
   intro a b
   have hn : sub < env.s.maxSubstreamId + 1 := by omega
-  have hi := inv_init (cipherOf a sub) 1 (by omega)
+  have hi := inv_init (wrap env (cipherOf a sub)) 1 (by omega)
   have hq : ((List.replicate (env.s.maxSubstreamId + 1) ([] : List Bytes))[sub]?).getD [] = [] := by
     rw [replicate_get _ _ _ hn]; rfl
   have hf : ((List.replicate (env.s.maxSubstreamId + 1) ([] : Bytes))[sub]?).getD [] = [] := by
@@ -1374,8 +1471,8 @@ structure Established (sub start : Nat) (a b : Conn) : Prop where
 /-- **`Established` is enough**: two endpoints with these properties and the initial channel are coupled (and the channel
     invariants hold), so every end-to-end theorem applies from there on -/
 theorem good_of_established (sub start : Nat) (a b : Conn) (h : Established sub start a b) :
-    Good sub (cipherOf a sub) a.fragmentSize start (Sys.fresh a b) (Chan.init start) := by
-  have hi := inv_init (cipherOf a sub) start h.lt
+    Good env sub (cipherOf a sub) a.fragmentSize start (Sys.fresh a b) (Chan.init start) := by
+  have hi := inv_init (wrap env (cipherOf a sub)) start h.lt
   obtain ⟨sa, hsa, hea⟩ := h.akey
   obtain ⟨sb, hsb, hdb⟩ := h.bkey
   have hk : sa.key = sb.key := by
@@ -1440,7 +1537,7 @@ open Nx Nx.Prudp Nx.Chan Nx.Crypto
 
 /-- position by position: the k-th message the receiving application is handed is the k-th message the sending application's
     `send` accepted — for every k, whatever happened to the packets of earlier and later messages -/
-theorem good_delivers_kth {sub : Nat} {ci : Cipher} {size start : Nat} {s : Sys} {ch : Chan} (h : Good sub ci size start s ch)
+theorem good_delivers_kth {env : Env} {sub : Nat} {ci : Cipher} {size start : Nat} {s : Sys} {ch : Chan} (h : Good env sub ci size start s ch)
     (k : Nat) (got : Bytes) (hgot : (s.b.queues[sub]?.getD [])[k]? = some got) : s.accepted[k]? = some got := by
   obtain ⟨t, ht⟩ := good_safe h
   rw [← ht]
